@@ -158,7 +158,7 @@ func (kr *killRun) do(c string, op Op, body []byte) bool {
 func killScenario(bin, kind string, seed int64, rounds int) ([]cEvent, string) {
 	dir := newDir()
 	defer os.RemoveAll(dir)
-	cr := &concRun{atoms: map[string][]byte{}, byMD5: map[string]string{}, bySHA: map[string]string{}, seed: seed}
+	cr := &concRun{atoms: map[string][]byte{}, md5s: map[string]string{}, multi: map[string][]interface{}{}, byMD5: map[string]string{}, bySHA: map[string]string{}, seed: seed}
 	cr.sizes = []int{100, 5000, 70000, 300000}
 	kr := &killRun{concRun: cr, bin: bin, kind: kind, dir: dir, client: &http.Client{Timeout: 20 * time.Second}}
 	if err := kr.start(); err != nil {
